@@ -341,7 +341,7 @@ func C09_Rollback() {
 		ops:    []string{"set", "remove", "commit"},
 		caches: []int{0, 10000}, fast: []bool{true, false}, thresh: []int{0}, refHash: true, iso: true}
 	if vTier() == "thorough" {
-		cfg.maxOps = 5
+		cfg.valVars = 2
 	}
 	h := vStartHist(cfg)
 	for i := 0; i < cfg.maxOps; i++ {
